@@ -734,7 +734,11 @@ class ConcurrentVector {
     if (curSize < n) {
       return grow_by(n - curSize);
     }
-    return {this, n - 1, bucketAndSubIndex(n - 1)};
+    // (see the overload below: the bucket holding element n - 1 may not be published yet)
+    auto binfo = bucketAndSubIndex(n - 1);
+    while (DISPENSO_EXPECT(!buffers_[binfo.bucket].load(std::memory_order_acquire), 0)) {
+    }
+    return {this, n - 1, binfo};
   }
 
   /**
@@ -749,7 +753,13 @@ class ConcurrentVector {
     if (curSize < n) {
       return grow_by(n - curSize, t);
     }
-    return {this, n - 1, bucketAndSubIndex(n - 1)};
+    // Another thread may have claimed the range containing element n - 1 (size_ is bumped first)
+    // without having published that bucket's buffer yet: wait for it, as the growth paths do,
+    // rather than building an iterator from a null buffer pointer.
+    auto binfo = bucketAndSubIndex(n - 1);
+    while (DISPENSO_EXPECT(!buffers_[binfo.bucket].load(std::memory_order_acquire), 0)) {
+    }
+    return {this, n - 1, binfo};
   }
 
   /**
